@@ -55,6 +55,8 @@ def plan(tier, seed):
         shards.append({'name': 'hash_%d' % hs, 'kind': 'hash', 'hashseed': hs,
                        'n': 120 if tier == 'quick' else 600})
     shards.append({'name': 'split', 'kind': 'split'})
+    shards.append({'name': 'sizegrid', 'kind': 'sizegrid', 'n': 150 if tier == 'quick' else 2500, 'N': 12,
+                   'seed': seed * 1000 + 181})
     shards.append({'name': 'large', 'kind': 'large', 'sizes': [1100, 2300] if tier == 'quick' else
                    [600, 1100, 2300, 4100]})
     shards.append({'name': 'loky', 'kind': 'loky', 'n': 20 if tier == 'quick' else 150,
@@ -316,8 +318,50 @@ def large_case(case, rec, ssj):
     return {'rows': len(base), 'call': call}
 
 
+def sizegrid_case(case, rec, ssj):
+    """SizeFilter / OverlapFilter.filter_tables (whose rows must not depend on n_jobs) on a grid of
+    token counts: left rows with 1..N tokens, right rows with 1..N tokens twice (the right table is
+    longer than the left one, its chunks are shorter), thresholds a few 1e-6 next to ratios of counts
+    -- where a bound evaluated from the other side's count falls on the other side of the slack."""
+    rng = random.Random(case['seed'])
+    N = case['N']
+    a, b = rng.randint(1, N), rng.randint(1, N)
+    m = case['measure']
+    base = {'JACCARD': min(a, b) / float(max(a, b)), 'COSINE': (min(a, b) / float(max(a, b))) ** 0.5,
+            'DICE': 2.0 * min(a, b) / (a + b)}[m]
+    t = min(1.0, max(1e-6, base + rng.choice([4e-6, 3e-6, 1e-5, -4e-6, 0, 2e-5, 4.9e-5, 5.1e-5])))
+    L = T.table_spec(['id', 's'], [[i, ' '.join('l%d_%d' % (i, k) for k in range(i))] for i in range(1, N + 1)],
+                     dtypes={'s': 'object'})
+    R = T.table_spec(['id', 's'], [[j, ' '.join('r%d_%d' % (j, k) for k in range((j - 1) % N + 1))]
+                                   for j in range(1, 2 * N + 1)], dtypes={'s': 'object'})
+    call = {'api': 'filter_tables', 'filter': {'kind': 'SizeFilter', 'measure': m, 'threshold': t},
+            'ltable': L, 'rtable': R, 'l_key': 'id', 'r_key': 'id', 'l_attr': 's', 'r_attr': 's',
+            'tok': {'kind': 'ws', 'return_set': True}, 'n_jobs': 1}
+    tag = 'SizeFilter(%s, %r).filter_tables on the count grid 1..%d: ' % (m, t, N)
+    try:
+        base_rows = rows_of(T.exec_call(ssj, call))
+    except Exception as e:
+        rec.add('raised', 'sizegrid %s: %s' % (type(e).__name__, str(e)[:80]))
+        return {'rows': 0}
+    for nj in (2, 3, 4, 5, 7):
+        try:
+            got = rows_of(T.exec_call(ssj, dict(call, n_jobs=nj)))
+        except Exception as e:
+            rec.violation('raises', tag + 'n_jobs=%d raised %s: %s' % (nj, type(e).__name__, str(e)[:160]), case=case)
+            continue
+        rec.count('sizegrid_comparisons')
+        if got != base_rows:
+            rec.violation('n_jobs', tag + 'n_jobs=%d changes the result: only with n_jobs=%d %r; only with '
+                          'n_jobs=1 %r' % (nj, nj, list((got - base_rows).elements())[:3],
+                                           list((base_rows - got).elements())[:3]), case=case)
+            break
+    return {'rows': sum(base_rows.values())}
+
+
 def run_case(case, rec, ssj=None):
     ssj = ssj or env.load()
+    if case['gen'] == 'sizegrid':
+        return sizegrid_case(case, rec, ssj)
     if case['gen'] == 'large':
         return large_case(case, rec, ssj)
     if case['gen'] == 'chunk':
@@ -426,6 +470,14 @@ def run_shard(shard, rec):
                 d = 'raised:' + type(e).__name__
             rec.add('dg_%04d' % i, d)
             rec.case(sig=('hash', shard['hashseed'], i), nontrivial=True)
+    elif kind == 'sizegrid':
+        for i in range(shard['n']):
+            case = {'gen': 'sizegrid', 'N': shard['N'], 'measure': ('JACCARD', 'COSINE', 'DICE')[i % 3],
+                    'seed': shard['seed'] * 100000 + i}
+            st = sizegrid_case(case, rec, ssj)
+            rec.case(sig=('sizegrid', case['seed']), nontrivial=st['rows'] > 0, n=6)
+        rec.sample({'workload': 'SizeFilter count grid under n_jobs 1..7, thresholds next to count ratios'},
+                   limit=1)
     elif kind == 'large':
         for x, n in enumerate(shard['sizes']):
             for y, (knd, api, t) in enumerate([('ws', 'jaccard_join', 0.6), ('ed', 'edit_distance_join', 1),
